@@ -1,10 +1,10 @@
 package main
 
 import (
-	"sort"
 	"go/constant"
 	"go/token"
 	"go/types"
+	"sort"
 	"strings"
 
 	"golang.org/x/tools/go/ssa"
@@ -156,8 +156,8 @@ func checkC19(w *World, r *Report) {
 				nret++
 				o := lt.Origins(retVals(ret)[0])
 				need := map[string]bool{
-					"the total supply":   o.Visited(supplyP),
-					"the period's Amount": o.HasPath(".Amount"),
+					"the total supply":         o.Visited(supplyP),
+					"the period's Amount":      o.HasPath(".Amount"),
 					"annualisation (MulInt64)": o.HasOp("Dec.MulInt64"),
 				}
 				if strings.Contains(name, "Exponential") {
